@@ -186,7 +186,7 @@ theorem Items.cost_eq_sum : ∀ (its : Items) (i : Nat),
     omega
 end
 
-theorem sum_map_flatMap {α β} (f : α → List β) (g : β → Nat) (l : List α) :
+theorem sum_map_flatMapR {α β} (f : α → List β) (g : β → Nat) (l : List α) :
     ((l.flatMap f).map g).sum = (l.map fun a => ((f a).map g).sum).sum := by
   induction l with
   | nil => rfl
@@ -205,7 +205,7 @@ theorem graphOf_fuel (f : PForest) (t : Tree) (ht : t ∈ f) :
   have h1 : t.cost ≤ ((f.nodes).map fun n => 2 + n.row.length).sum := by
     rw [Tree.cost_eq_sum t none]
     unfold PForest.nodes
-    rw [sum_map_flatMap]
+    rw [sum_map_flatMapR]
     exact le_sum_of_mem (List.mem_map.2 ⟨t, ht, rfl⟩)
   have h2 : ((f.nodes).map fun n => 2 + n.row.length).sum
       = 2 * (graphOf f).size + (graphOf f).totalOut := by
